@@ -92,6 +92,7 @@ fn main() {
         "fmachine" => s_machine::run_fmachine(&a, &mut out),
         "tower" => s_tower::run(&a, &mut out),
         "symwalk" => s_replay::run(&a, &mut out),
+        "sympair" => s_replay::run_pair(&a, &mut out),
         "group" => s_group::run_group(&a, &mut out),
         "encode" => s_group::run_encode(&a, &mut out),
         s => {
